@@ -1534,9 +1534,9 @@ LEVEL_NOTE = ("Trusted: Lean kernel, statements in the files of PROPS_FILES (Pro
               "dimension guards of finish_obs / finish_hdiffs -> Gen/HomogenizationSites, read by the five theorems of "
               "Props/C10HomSites.lean), generators and tolerances. Hand models behind those sites: the counting and assembling passes "
               "beyond their order, the perm/invp numbering, the scatter, BlockDiagonal::cholDec, CovParse (finish_cov accounting). "
-              "Residues: C10_homogenization_run and C10_sparse_path_is_homogenization_run keep the hypothesis 'no repeated column "
-              "index in a row' (the solver-side model Ls.Env.homogenize still reads a repeated column as last-write-wins; the C++ and "
-              "Cov.Hom.run sum since 6d0f7107); C10_network_solution_uses_full_covariance_aliased excludes the envelope algorithm; "
+              "Round 12: no theorem carries a 'no repeated column index in a row' hypothesis any more (SMat.nodupRows left Hom.run_spec, "
+              "C10_homogenization_run, Env.HoldsProblem; RowsOK is the range condition; Problem.dense, Cov.Hom.run and every C++ consumer sum); "
+              "C10_network_solution_uses_full_covariance_aliased covers every algorithm, envelope included. Residues: "
               "'a non positive definite block is rejected by every algorithm' is one-way at network level (C01_net_rejects) and "
               "examples at parse time; findings: C10-REPCOL fixed (6d0f7107), C10-covmat-dim-check fixed (410fb36), "
               "C10-homogenization-nonpd fixed (7e9fd7d), C10-TINY known (proved as C10_tiny_gap; two corpus cases classified on "
@@ -1559,10 +1559,9 @@ MODELLED = ["IEEE rounding in the Cholesky kernels (proved over ordered fields w
             "compared with the C++ and with the dense path; see notes/reports/C10.md (Round 3) for the refinement lemmas proved; "
             "its throw, phase order, forward substitution and gather store are regenerated (Gen/HomogenizationSites, round 7 / 9b) and "
             "it is proved equal in values and rejections to the solver-side Ls.Env.homogenize (C16_hom_run_eq_env_homogenize, "
-            "hypothesis: no repeated column index in a row); "
+            "no no-repeat hypothesis since round 12); "
             "Homogenization's ready/reset caching is not modelled (one call of run)"]
 ASSUMPTIONS = ["covariance blocks have 0 <= band < dim (established by GKFparser::process_cov and Cluster::activeCov, proved)",
                "Homogenization::run: design matrix completely built, rows = sum of block dims = rhs size, column indices in "
-               "1..cols; C10_homogenization_run additionally: no repeated column index inside a sparse row (since repo 6d0f7107 the "
-               "C++ sums T(i,perm[c]) += a in correlated blocks too; modelled, compared, proved for the gather loop without that "
-               "hypothesis - C10_repeated_columns_agree - but the hypothesis is still in the statement of the whole-run theorem)"]
+               "1..cols (repeated column indices inside a sparse row are allowed since round 12: their coefficients add up, "
+               "T(i,perm[c]) += a since repo 6d0f7107)"]
